@@ -6,7 +6,7 @@ from ..layouts import zoo, contiguous, lay1
 from ..nd import prod, lane_positions, result_shape
 from ..plans import sum_plan, plan_term, std_plan
 from ..pyfloat import FP, finite
-from .numcommon import mk_num_case, parse_num, model_ints, float_pool, fval, mk_alias_case, alias_pairs
+from .numcommon import mk_num_case, parse_num, model_ints, float_pool, fval, mk_alias_case, alias_pairs, plan_of
 
 FLOATS = ("f64", "f32")
 INTS = ("i32", "i64", "u64", "usize")
@@ -232,9 +232,9 @@ class C06(Prop):
             tabs = " %s %s" % (tab_term(getattr(case, "ln_tab", [])), tab_term(getattr(case, "exp_tab", [])))
         d = zlist(model_ints(et, case.vals[0]))
         if r in STAT1:
-            return "%s_stat1%s %d %s %s 0" % (pre, tabs, STAT1[r], plan_term(sum_plan(case._lays[0])), d)
+            return "%s_stat1%s %d %s %s 0" % (pre, tabs, STAT1[r], plan_of(case, 0), d)
         w = zlist(model_ints(et, case.vals[1]))
-        plw = plan_term(sum_plan(case._lays[1]))
+        plw = plan_of(case, 1)
         if r in STAT2:
             return "%s_stat2%s %d %s %s %s 0" % (pre, tabs, STAT2[r], plw, d, w)
         lanes = lane_positions(case.shapes[0], case.axis)
